@@ -5,6 +5,7 @@ CONSTANTS
   Focus = {"node"}
   Emit = "none"
   MaxBatch = 1
+  AsWritten = FALSE
 VIEW View
 INVARIANTS PrimaryExistsAndMarked
 CHECK_DEADLOCK FALSE
